@@ -679,6 +679,12 @@ func genC16(g *Rng, tier string, emit func(Op)) {
 
 	// (c) the stop protocol of the safe-prime workers
 	workers := runtime.GOMAXPROCS(0)
+	// the stop by send with the consumer still reading, fixed sizes, many short runs (what a worker
+	// does with a result it holds at the moment of the stop depends on timing)
+	for i := 0; i < 16; i++ {
+		emit(Op{"op": "safeprime-stop", "class": "stop-by-send-drain-fixed", "key": "stop-by-send", "label": "clean", "mode": "immediate", "send": true, "drain": true,
+			"bits": 20 + (i*7)%24, "recvs": 1 + i%3, "workers": workers, "wait": 2500, "rep": i})
+	}
 	nstop := 3
 	if thorough {
 		nstop = 12
